@@ -226,8 +226,27 @@ def stepHist (preset : String) (ops : String) : String :=
       (st', acc.2 ++ [r])) (st0, [])
     ",".intercalate (outs.map toString)
 
+def tolOf (be m hd : Nat) : Nat := if be == 3 then hd - 1 else m
+
+def stepLedger (be k m hd calls : String) : String :=
+  match be.toNat?, k.toNat?, m.toNat?, hd.toNat? with
+  | some be, some k, some m, some hd =>
+    let vals := ledgerRun be k m (tolOf be m hd) calls.toList
+    ",".intercalate (vals.map toString) ++ "|0"
+  | _, _, _, _ => "bad-op"
+
+def stepFault (be op n : String) : String :=
+  match be.toNat?, op.toNat?, n.toNat? with
+  | some be, some op, some n =>
+    let (all, pos) := faultScript (be == 0) op n
+    ",".intercalate (all.map toString) ++ s!" fault@{pos} held={if pos < 0 then (-1 : Int) else 0} end=0"
+  | _, _, _ => "bad-op"
+
 def stepAll (line : String) : String :=
   match line.trimAscii.toString.splitOn " " with
+  | ["ledger", be, k, m, hd, calls] => stepLedger be k m hd calls
+  | ["fault", be, _, _, _, op, n] => stepFault be op n
+  | ["pure", _] => "same"
   | "args" :: api :: be :: k :: m :: rest => stepArgs api be k m rest
   | ["hist", preset, ops] => stepHist preset ops
   | _ => step line
